@@ -14,6 +14,10 @@ claimed = {
          "A9, A10", "5"),
  "C05": ("proof", "v2 Environmental.Score in stages (adjusted base 46,656; adjusted temporal 12,200; CDP/TD 2x3,660; environmental group absent 10,200+102). 771 adjusted-base instances are refuted and listed as known findings (real vectors, replayed); every other instance is discharged and any unlisted failure is a violation.",
          "A9, A10; the claim excludes the 771 listed known findings (genuine defect, DESIGN.md 6.2)", "5"),
+ "C06": ("proof", "Every Score() postcondition pins the result to a tenth-grid double with explicit range (446k ground obligations shared with C01-C05, using only the weak grid stage of the v2 adjusted base score so that C05's known finding does not enter); severity(score) has a symbolic contract over all doubles; each Severity() is proved to be the rating band of its own level's score for every grid value (replace families, cut-point obligation fails if another level's score is used); FormatFloat of the 101 grid doubles prints at most one decimal.",
+         "A5 (FormatFloat oracle table from the real function), A9, A10", "5"),
+ "C13": ("proof", "Neutrality and monotonicity as conjuncts of the temporal/environmental family postconditions (temporal with all Not Defined === base, temporal <= base, v2 TD:N => 0) plus spec-side lemma families (v3 environmental equations with all metrics Not Defined collapse to the temporal ones except scope-changed 3.1: 5,184 ground lemma instances; Modified X = base by the eff_ contracts).",
+         "A5, A9, A10; rests on the C02/C03/C05 stage obligations but not on C05's refuted adjusted-base equation", "5"),
  "C20": ("proof", "Symbolic contracts (all strings, all integers) on every Get<Metric>, String, Value, IsUnknown/IsValid/IsDefined/IsChanged of the 36 metric types and the version printer/parser against tables written from the FIRST documents: parse/print inverse, everything else unknown, weights equal the specification (scope-dependent PR, Modified falls back to base).",
          "A10; map iteration modelled as unordered", "5"),
 }
